@@ -95,6 +95,30 @@ var nativeIntrinsics = map[string]intrinsic{
 		}
 		return Value{Bits: b2u(types.Comparable(ifc.t))}
 	},
+	"math.Float64bits": func(it *Interp, fn *ssa.Function, args []Value) Value {
+		if args[0].Ref == nil {
+			return Value{Bits: args[0].Bits}
+		}
+		return fromTerm(it.tt.FUn(OFToBits, 64, args[0].Ref.(*Term)))
+	},
+	"math.Float32bits": func(it *Interp, fn *ssa.Function, args []Value) Value {
+		if args[0].Ref == nil {
+			return Value{Bits: args[0].Bits & 0xffffffff}
+		}
+		return fromTerm(it.tt.FUn(OFToBits, 32, args[0].Ref.(*Term)))
+	},
+	"math.Float64frombits": func(it *Interp, fn *ssa.Function, args []Value) Value {
+		if args[0].Ref == nil {
+			return Value{Bits: args[0].Bits}
+		}
+		return fromTerm(it.tt.FUn(OBitsToF, SF64, args[0].Ref.(*Term)))
+	},
+	"math.Float32frombits": func(it *Interp, fn *ssa.Function, args []Value) Value {
+		if args[0].Ref == nil {
+			return Value{Bits: args[0].Bits & 0xffffffff}
+		}
+		return fromTerm(it.tt.FUn(OBitsToF, SF32, args[0].Ref.(*Term)))
+	},
 	"runtime.Gosched":     noop,
 	"runtime.KeepAlive":   noop,
 	"runtime.SetFinalizer": noop,
@@ -183,6 +207,9 @@ func lookupIntrinsicByName(eng *Engine, fn *ssa.Function) intrinsic {
 func (eng *Engine) buildIntrinsics() {
 	eng.intr = map[*ssa.Function]intrinsic{}
 	bigIntr := bigIntrinsics()
+	for k, v := range reflectValueIntrinsics() {
+		bigIntr[k] = v
+	}
 	all := allFunctions(eng.prog)
 	for fn := range all {
 		name := fn.String()
